@@ -84,8 +84,8 @@ CHECKS = {
    note='Bounded as C01. Two genuine defects found and fixed (d104422: a failed map_to widened a huge page\'s flags; 22293bc: RecursivePageTable update_flags / translate_page / set_flags_p2_entry walked through a huge parent into its data frame); fourteen obligations (2 MiB / 1 GiB update_flags and translate_page on table-pointing entries, set_flags_p3/p2_entry on huge leaves, both mappers) are OPEN known findings (known_findings.txt): the check prints KNOWN-FINDING for them and exits 0.'),
  'C10': dict(engine=E1, cat='other',
    tech='contract-based verification with Kani: bounded clean_up_addr_range checks on concrete page-table hierarchies (literal tables so CBMC constant-propagates the 512-entry scans), deallocator log and pre/post comparison against an independent walker',
-   text='Bounded stand-in only. For MappedPageTable::clean_up_addr_range on nine hand-picked concrete hierarchies (window inside a P1, window inside a P2, huge pages in P2 and P3, middle P1, two P1s across a boundary, empty range; thorough: full chain, canonical gap, last page) the harness asserts: every freed frame is a level-1..3 table of an allowed set that was empty at that moment, never the level-4 table / a huge frame / an unknown frame; each freed once and only after its parent slot was cleared; every table wholly inside the range that is or becomes empty was freed; through one symbolic (table, slot) every word is zero if it linked a freed table and unchanged otherwise; an independent walk of a symbolic address gives the same translation before and after; a second call frees and writes nothing.',
-   note='Bounded: concrete pre-states (one symbolic table word already exhausts 14 GB), concrete ranges, pool of 7 tables, MappedPageTable only. NOT covered: clean_up() over the whole address space (no verdict in 25 min), ranges covering a whole level-2/3 table, RecursivePageTable (recursive slot clause), symbolic hierarchies. Nothing here is counted as proved.'),
+   text='Bounded stand-in only. For MappedPageTable::clean_up_addr_range on nine hand-picked concrete hierarchies (window inside a P1, window inside a P2, huge pages in P2 and P3, middle P1, two P1s across a boundary, empty range; thorough: full chain, canonical gap, last page) and for RecursivePageTable::clean_up_addr_range on nine more (recursive index 1, recursive addresses resolved by a software MMU over the pool: level-3 / level-2 index equal to the recursive index, range inside the recursive window, ranges straddling the recursive slot, mapped P1, huge pages; plus the clause that the recursive slot is never descended into, cleared or freed) the harness asserts: every freed frame is a level-1..3 table of an allowed set that was empty at that moment, never the level-4 table / a huge frame / an unknown frame; each freed once and only after its parent slot was cleared; every table wholly inside the range that is or becomes empty was freed; through one symbolic (table, slot) every word is zero if it linked a freed table and unchanged otherwise; an independent walk of a symbolic address gives the same translation before and after; a second call frees and writes nothing.',
+   note='Bounded: concrete pre-states (one symbolic table word already exhausts 14 GB), concrete ranges, pool of 7 tables, recursive index 1. NOT covered: clean_up() over the whole address space (no verdict in 25 min), ranges covering a whole level-2/3 table, symbolic hierarchies, other recursive indices. Nothing here is counted as proved.'),
  'C09': dict(engine=E1, cat='other',
    tech='contract-based verification with Kani: word-by-word frame condition over the whole table pool through one symbolic (table, slot), allocator call counting, zero-before-use ghost flag, pointer checks for any access outside the pool',
    text='In every step harness all pool tables are compared before/after through one symbolic (table, slot) pair so only the dictated slots may change; data frames are not backed by objects: for MappedPageTable a frame_to_pointer request outside the pool, for RecursivePageTable a recursive address that does not resolve (by the hardware walk from CR3) to a page table of the pool is counted and fails the named clause no_access_outside_page_tables; allocator calls are counted (<= 1/2/3, none when tables exist, none in other operations); a fresh table is zeroed before its first entry is written. create_next_table (both mappers): allocation iff the entry word is zero, none for any non-zero word, zeroed before return (complete proof).',
